@@ -344,7 +344,9 @@ Definition o01_step (prev : mgr) (s : ostep) : bool :=
     (* one connection task per address (what ties a task's reports to the manager's entry for it): a tracker answer
        opens at most one connection per listed address that is not connected yet *)
     && match s_op s with
-       | OTresp ps => peer_spawns (s_sp s) <=? len (nodup N.eq_dec (filter (fun a => negb (is_some (pget (m_peers prev) a))) ps))
+       (* (candidates left over from earlier answers are contacted by later ones too: they count) *)
+       | OTresp ps => peer_spawns (s_sp s) <=? len (nodup N.eq_dec (filter (fun a => negb (is_some (pget (m_peers prev) a)))
+                                                                           (map fst (m_candidates prev) ++ ps)))
        (* ... and an incoming connection from an address that is still connected gets no second task, nor may it touch
           the entry of the live connection *)
        | OAccept a => if is_some (pget (m_peers prev) a) then (peer_spawns (s_sp s) =? 0) && mgr_eqb prev (s_state s)
